@@ -113,6 +113,9 @@ type rcptCase struct {
 	Actor string      // "" = unset
 	Block string      // "" = not a Block; else the object token
 	Kind  string
+	// ViaGob: the value goes through the gob codec before Recipients() is called (an application reads it back from its store):
+	// members are then other Go values with the same ids, and a nil entry may have become an empty placeholder - still nobody
+	ViaGob bool
 }
 
 func (r rcptCase) String() string {
@@ -150,6 +153,13 @@ func runRecipients(c *Ctx, rc rcptCase) {
 	var items [5][]vocab.Item
 	for i, f := range fields {
 		if len(rc.Lists[i]) == 0 {
+			// one in three of the lists that name nobody is there all the same, emptied (what Clean(), Remove of the last member or
+			// an earlier de-duplication leave behind), a former member still sitting in its spare capacity
+			if H64(rc.String()+f)%3 == 0 {
+				backing := vocab.ItemCollection{vocab.IRI("https://" + rcptSalt + ".example.com/users/former-member")}
+				v.FieldByName(f).Set(reflect.ValueOf(backing[:0]))
+				c.Count("emptied-lists", 1)
+			}
 			continue
 		}
 		l := make(vocab.ItemCollection, 0, len(rc.Lists[i])+2)
@@ -240,6 +250,23 @@ func runRecipients(c *Ctx, rc rcptCase) {
 	}
 	scan(-1, items[4], false)
 
+	if rc.ViaGob {
+		var b []byte
+		var err error
+		var back vocab.Item
+		c.Pending("gob round trip before Recipients " + rc.String())
+		if c.Guard("GobEncode/GobDecode", func() {
+			if b, err = vocab.GobEncode(p.(vocab.Item)); err == nil {
+				back, err = vocab.GobDecode(b)
+			}
+		}) || err != nil || back == nil || reflect.TypeOf(back) != reflect.TypeOf(p) {
+			c.Count("via-gob-skipped", 1)
+			return
+		}
+		c.Count("via-gob", 1)
+		p = back
+		v = reflect.ValueOf(p).Elem()
+	}
 	// ---- the real call ----
 	hr, ok := p.(vocab.HasRecipients)
 	if !ok {
@@ -262,6 +289,10 @@ func runRecipients(c *Ctx, rc rcptCase) {
 			gotRet = append(gotRet, "<nil>")
 			continue
 		}
+		if rc.ViaGob && len(e.GetLink()) == 0 {
+			gotRet = append(gotRet, "<nobody>")
+			continue
+		}
 		gotRet = append(gotRet, rcptKey(e))
 	}
 	if strings.Join(gotRet, " , ") != strings.Join(wantRet, " , ") {
@@ -282,6 +313,19 @@ func runRecipients(c *Ctx, rc rcptCase) {
 		same := len(got) == len(wantLists[i])
 		if same {
 			for k := range got {
+				if rc.ViaGob {
+					// after the codec: the same addressee by id; what was a nil entry is nil or an empty placeholder
+					w := wantLists[i][k]
+					switch {
+					case w == nil:
+						same = same && (vocab.IsNil(got[k]) || len(got[k].GetLink()) == 0)
+					case vocab.IsNil(got[k]):
+						same = false
+					default:
+						same = same && rcptKey(got[k]) == rcptKey(w)
+					}
+					continue
+				}
 				if !sameItem(got[k], wantLists[i][k]) {
 					same = false
 				}
@@ -296,7 +340,7 @@ func runRecipients(c *Ctx, rc rcptCase) {
 	if blocked != nil {
 		for _, f := range fields {
 			for _, e := range v.FieldByName(f).Interface().(vocab.ItemCollection) {
-				if e != nil && rcptKey(e) == blockedKey {
+				if !vocab.IsNil(e) && rcptKey(e) == blockedKey {
 					c.Fail("rcpt|Activity|block|still-addressed-in-"+strings.ToLower(f), fmt.Sprintf("after Recipients() of %s the blocked object is still in %s", label, f), map[string]any{"case": label})
 				}
 			}
@@ -569,6 +613,23 @@ func init() {
 							}
 						}
 					}
+				}},
+				{Name: "read-back-from-gob", N: (total/stride + 1) * len(rcptKinds), Exhaustive: true, Run: func(c *Ctx, idx int) {
+					// the types-covering cases once more, each value put through the gob codec first
+					kind := rcptKinds[idx%len(rcptKinds)]
+					j := (idx / len(rcptKinds)) * stride
+					if j >= total {
+						j = total - 1
+					}
+					rc := decode(j)
+					rc.Kind = kind
+					rc.ViaGob = true
+					k := idx / len(rcptKinds)
+					if kind == "IntransitiveActivity" || kind == "Question" || kind == "Activity" {
+						rc.Actor = actorToks[k%len(actorToks)]
+					}
+					c.Distinct("gob|"+rc.String(), true)
+					runRecipients(c, rc)
 				}},
 				{Name: "random", N: tierN(tier, 50000, 1000000), Run: func(c *Ctx, idx int) {
 					var rc rcptCase
